@@ -184,7 +184,7 @@ class Trace:
         c = self.conn
         from aioesphomeapi.connection import ConnectionState as S
         cs = {S.INITIALIZED: "INIT", S.SOCKET_OPENED: "SOCK", S.HANDSHAKE_COMPLETE: "HS", S.CONNECTED: "CONN", S.CLOSED: "CLOSED"}[c.connection_state]
-        u = lambda t: "-" if t is None else str(round(t.when() * 1024))
+        u = lambda t: "-" if t is None else str(round((t.when() - simnet.CLOCK_BASE) * 1024))
         hs = []
         for cls, handlers in c._message_handlers.items():
             ty = simnet.msg_type_id(cls)
@@ -317,7 +317,19 @@ class Trace:
         if k == "finish":
             if any(tid == "F" and not t.done() for t, tid in self.tasks.items()):
                 return "silent"
-            t = self.loop.create_task(c.finish_connection(login=bool(a[1])))
+            if len(a) > 2 and a[2] == "then-send":
+                # the caller's coroutine goes on in the same task: a command right after finish_connection() returned
+                # (implementation-only probe: such stories are not compared with the model)
+                async def finish_then_send(login=bool(a[1])):
+                    await c.finish_connection(login=login)
+                    try:
+                        c.send_messages((self._cls(33)(),))
+                    except Exception as e:  # noqa
+                        self.events.append("X" + exc_name(e))
+                    self.cur_action_label = self.cur_action_label or "send:33"
+                t = self.loop.create_task(finish_then_send())
+            else:
+                t = self.loop.create_task(c.finish_connection(login=bool(a[1])))
             self.tasks[t] = "F"
             self.first_label[t] = f"finish:{int(a[1])}"
             return None
